@@ -347,7 +347,7 @@ func assignOne(destValue reflect.Value, taken any, to string) (reflect.Value, er
 			return destValue, fmt.Errorf("field mapping to a struct field but output is not a struct, type=%v", destValue.Type())
 		}
 
-		field := destValue.FieldByName(path)
+		field := settableFieldByName(destValue, path)
 		if !field.IsValid() {
 			return destValue, fmt.Errorf("field mapping to a struct field, but field not found. field=%v, outputType=%v", path, destValue.Type())
 		}
@@ -366,6 +366,31 @@ func assignOne(destValue reflect.Value, taken any, to string) (reflect.Value, er
 
 		destValue = field
 	}
+}
+
+// settableFieldByName is reflect.Value.FieldByName for a destination: nil embedded pointers on the
+// way to a promoted field are instantiated (like every other pointer on a target path) instead of
+// panicking. v must be an addressable struct.
+func settableFieldByName(v reflect.Value, name string) reflect.Value {
+	sf, ok := v.Type().FieldByName(name)
+	if !ok {
+		return reflect.Value{}
+	}
+
+	for i, x := range sf.Index {
+		if i > 0 && v.Kind() == reflect.Ptr {
+			if v.IsNil() {
+				if !v.CanSet() {
+					return reflect.Value{}
+				}
+				v.Set(reflect.New(v.Type().Elem()))
+			}
+			v = v.Elem()
+		}
+		v = v.Field(x)
+	}
+
+	return v
 }
 
 func instantiateIfNeeded(field reflect.Value) {
@@ -529,7 +554,7 @@ func checkAndExtractToField(toField string, output, toSet reflect.Value) (field 
 		return reflect.Value{}, fmt.Errorf("field mapping to a struct field but output is not a struct, type=%v", output.Type())
 	}
 
-	field = output.FieldByName(toField)
+	field = settableFieldByName(output, toField)
 	if !field.IsValid() {
 		return reflect.Value{}, fmt.Errorf("field mapping to a struct field, but field not found. field=%v, outputType=%v", toField, output.Type())
 	}
